@@ -19,7 +19,7 @@ let role_of_int (i : int) : M.role =
 let funding0 = z_of_big (Z.shift_left Z.one 62)
 
 let pdump (i : int) (b : M.pbank) : string =
-  String.concat " " ["B" ^ string_of_int i; C.dump_bank b.M.pb_c; zs b.M.pb_osetup; zs b.M.pb_fixed_price;
+  Stdlib.String.concat " " ["B" ^ string_of_int i; C.dump_bank b.M.pb_c; zs b.M.pb_osetup; zs b.M.pb_fixed_price;
                      zs b.M.pb_em_rate; zs b.M.pb_em_remaining; zs b.M.pb_em_mint]
 
 (* names of the modelled bank fields that differ, in the order of the harness' byte table *)
@@ -48,12 +48,12 @@ let diff_bank (a : M.pbank) (b : M.pbank) : string list =
     ("<rest>", a.M.pb_rest = b.M.pb_rest) ] in
   Stdlib.List.filter_map (fun (n, same) -> if same then None else Some n) l
 
-let lst (l : string list) : string = if l = [] then "-" else String.concat " " l
+let lst (l : string list) : string = if l = [] then "-" else Stdlib.String.concat " " l
 
 let hex_of (l : M.z list) : string =
-  String.concat "" (Stdlib.List.map (fun z -> Printf.sprintf "%02x" (Z.to_int (big_of_z z))) l)
+  Stdlib.String.concat "" (Stdlib.List.map (fun z -> Printf.sprintf "%02x" (Z.to_int (big_of_z z))) l)
 let bytes_of_hex (s : string) : M.z list =
-  if s = "-" then [] else Stdlib.List.init (String.length s / 2) (fun k -> zi (int_of_string ("0x" ^ String.sub s (2 * k) 2)))
+  if s = "-" then [] else Stdlib.List.init (Stdlib.String.length s / 2) (fun k -> zi (int_of_string ("0x" ^ Stdlib.String.sub s (2 * k) 2)))
 
 (* EXTERNAL INPUT of the model: what validate_oracle_setup answers in the privsim world for
    (oracle setup, oracle key identity, pyth fixture account passed?) -- read off the real handler in the
@@ -108,7 +108,7 @@ let suite_privsim (line : string) : string =
             [ ("ticker", m.M.pm_ticker = m'.M.pm_ticker); ("description", m.M.pm_desc = m'.M.pm_desc);
               ("end_description_byte", m.M.pm_end_desc = m'.M.pm_end_desc);
               ("end_ticker_byte", m.M.pm_end_ticker = m'.M.pm_end_ticker) ] in
-        if md <> [] then a := ("meta" ^ string_of_int i ^ ":" ^ String.concat "+" md) :: !a;
+        if md <> [] then a := ("meta" ^ string_of_int i ^ ":" ^ Stdlib.String.concat "+" md) :: !a;
         if w'.M.px_vaults <> w.M.px_vaults then a := "<vaults>" :: !a;
         if w'.M.px_users <> w.M.px_users then a := "<users>" :: !a;
         if w'.M.px_group <> w.M.px_group then a := "<group>" :: !a;
@@ -164,7 +164,7 @@ let suite_privsim (line : string) : string =
                let tk = C.opt t (fun t -> bytes_of_hex (next t)) in
                let ds = C.opt t (fun t -> bytes_of_hex (next t)) in
                let r = run i signer (M.PWriteMetadata (tk, ds)) in
-               if String.length r >= 2 && String.sub r 0 2 = "OK" then
+               if Stdlib.String.length r >= 2 && Stdlib.String.sub r 0 2 = "OK" then
                  let m = metas.(i) in
                  r ^ " M " ^ hex_of m.M.pm_ticker ^ " " ^ zs m.M.pm_end_ticker ^ " " ^ hex_of m.M.pm_desc ^ " " ^ zs m.M.pm_end_desc
                else r
@@ -172,7 +172,7 @@ let suite_privsim (line : string) : string =
            | x -> failwith ("unknown step " ^ x)) in
     out := s :: !out
   done;
-  String.concat " | " (Stdlib.List.rev !out)
+  Stdlib.String.concat " | " (Stdlib.List.rev !out)
 
 let () = register "privsim" suite_privsim
 
@@ -205,7 +205,7 @@ let suite_delevsim (line : string) : string =
   let dump () =
     (* Drv_hops.dump_hworld prints the account rows; the extra token row is the risk admin's *)
     let r = Stdlib.List.nth !w.D.hw_utok na in
-    Drv_hops.dump_hworld !w ^ " # R " ^ String.concat " " (Stdlib.List.map zs r)
+    Drv_hops.dump_hworld !w ^ " # R " ^ Stdlib.String.concat " " (Stdlib.List.map zs r)
     ^ " # G " ^ zs !c.D.wc_limit ^ " " ^ zs !c.D.wc_withdrawn ^ " " ^ zs !c.D.wc_last_reset in
   for _ = 1 to nops do
     let op = ni t in
@@ -262,6 +262,6 @@ let suite_delevsim (line : string) : string =
           ("g.win.last_reset", c0.D.wc_last_reset = !c.D.wc_last_reset) ] in
     out := (res ^ " # " ^ dump () ^ " # D " ^ lst gd) :: !out
   done;
-  String.concat " | " (Stdlib.List.rev !out)
+  Stdlib.String.concat " | " (Stdlib.List.rev !out)
 
 let () = register "delevsim" suite_delevsim
